@@ -22,9 +22,11 @@ fn roundtrip(len: usize) {
 		Some(sep) => {
 			assert!(sep.value.as_u64() == addr, "C04.B3 value address round trip");
 			assert!(sep.key.len() == len, "C04.B3 key length round trip");
-			let i: usize = kani::any();
-			kani::assume(i < len);
-			assert!(sep.key[i] == bytes[i], "C04.B3 key bytes round trip");
+			if len > 0 {
+				let i: usize = kani::any();
+				kani::assume(i < len);
+				assert!(sep.key[i] == bytes[i], "C04.B3 key bytes round trip");
+			}
 			std::mem::forget(sep);
 		},
 		None => assert!(false, "C04.B3 separator lost"),
